@@ -15,8 +15,17 @@ def main(argv=None):
     ap.add_argument("--replay")
     a = ap.parse_args(argv)
     pid = a.property.upper()
-    if "/repo" not in sys.path:
-        sys.path.insert(0, "/repo")
+    # the code under test: /repo's working tree (VERIF_REPO only for trying
+    # seeded changes in a scratch worktree without touching /repo)
+    repo = os.environ.get("VERIF_REPO") or "/repo"
+    if repo in sys.path:
+        sys.path.remove(repo)
+    sys.path.insert(0, repo)
+    import matchingproblems
+    if not os.path.abspath(matchingproblems.__file__).startswith(os.path.abspath(repo) + "/"):
+        print("HARNESS-ERROR matchingproblems imported from %s, not %s" % (
+            matchingproblems.__file__, repo))
+        return 2
     sys.setrecursionlimit(10000)
     from . import lprun
     lprun.root()
